@@ -103,7 +103,7 @@ def finishAlloc (c : Case) (st : Stats) : IO Stats := do
         emit "PROPFAIL" c.id s!"what=illegal-identifier sig=alloc-illegal-identifier name={impl} req={idx} kind={ktok} desired={nameToString r.desired}"
         st := { st with propfails := st.propfails + 1 }
       if isReserved n then
-        emit "PROPFAIL" c.id s!"what=reserved sig=reserved:{Vhdl.lcs impl} name={Vhdl.lcs impl} returned={impl} req={idx} kind={ktok} desired={nameToString r.desired} (allocate* returned a VHDL-2008 reserved word)"
+        emit "PROPFAIL" c.id s!"what=reserved sig={if Gatery.Gen.keywordTable.contains (Vhdl.lcs impl) then "reserved-although-in-table" else s!"reserved:{Vhdl.lcs impl}"} name={Vhdl.lcs impl} returned={impl} req={idx} kind={ktok} desired={nameToString r.desired} (allocate* returned a VHDL-2008 reserved word)"
         st := { st with propfails := st.propfails + 1 }
       let ch := chain c.tree r.scope
       match earlier.find? (fun e => ch.contains e.1 && e.2.1 == lower n) with
@@ -141,7 +141,7 @@ def finishExport (c : Case) (st : Stats) : IO Stats := do
           let nm := if p.what == "reserved" then Vhdl.lcs p.name else p.name
           -- sig: the shape of the failure (kinds of the two declarations for duplicates, the word for reserved words)
           let kindsOf := (p.detail.splitOn " ").filter fun w => ["port", "signal", "variable", "constant", "component", "label", "entity", "package", "param"].contains w
-          let sg := if p.what == "reserved" then s!"reserved:{nm}" else if p.what == "duplicate" then s!"duplicate:{"/".intercalate (kindsOf.take 2)}" else p.what
+          let sg := if p.what == "reserved" then (if Gatery.Gen.keywordTable.contains nm then "reserved-although-in-table" else s!"reserved:{nm}") else if p.what == "duplicate" then s!"duplicate:{"/".intercalate (kindsOf.take 2)}" else p.what
           emit "PROPFAIL" c.id s!"what={p.what} sig={sg} name={nm} line={p.line} detail=[{p.detail}] text=[{src.trimAscii.toString}]"
     return st
 
